@@ -24,7 +24,7 @@ from .rng import mix
 
 KNOWN_FINDINGS = os.path.join(VERIF, 'known_findings.json')
 REPLAY_DIR = os.environ.get('VSIM_REPLAY_DIR') or os.path.join(VERIF, 'replays')
-EVIDENCE_DIR = os.path.join(VERIF, 'evidence')
+EVIDENCE_DIR = os.environ.get('VSIM_EVIDENCE_DIR') or os.path.join(VERIF, 'evidence')
 
 
 class Engine(object):
